@@ -38,7 +38,8 @@ def config(draw, shard=0, nshards=1, max_tracks=4, small_vocab=True):
     combo = draw(st.one_of(st.just(shard % 16), st.just((shard + nshards) % 16), st.integers(0, 15)))
     cfg = {"num_tracks": draw(st.integers(1, max_tracks))}
     if max_tracks >= 4 and draw(st.integers(0, 11)) == 0:
-        cfg["num_tracks"] = draw(st.integers(5, 12))      # two-digit track numbers
+        # two-digit track numbers, and more tracks than a MIDI file has channels
+        cfg["num_tracks"] = draw(st.one_of(st.integers(5, 12), st.sampled_from([16, 17, 18, 20])))
     cfg["ts_range"] = draw(st.sampled_from([None, None, None, None, [1, 16], [2, 12], [4, 20], [1, 24], [8, 8], [2, 6], [9, 16]]))
     # resolution the tokeniser computes bar capacities with (None = library default 24); pieces are laid out on
     # bars of 4*ppqn*num/den ticks, so only multiples of 24 keep every capacity a multiple of the rest unit
@@ -198,6 +199,10 @@ def piece(draw, cfg, max_bars=6, max_notes=10, allow_crossing=True, noise=True, 
                 meta.append(["cc", draw(st.integers(0, last_on)), 64, draw(st.integers(0, 127)), chan])
         spec = {"notes": notes, "meta": meta}
         spec.update(draw(gens.route(allow_post=True)))
+        if ts_spread and spec.get("post") == "normalise":
+            # normalising one track on its own would drop a signature that returns to that track's previous value although
+            # another track changed it in between: the input would no longer be the piece described by `bars`
+            spec["post"] = None
         end = max([n[3] for n in notes] + [e[1] for e in meta] + [0])
         mode = pad_mode if pad_mode != "mixed" else draw(st.sampled_from(["none", "grid_tick", "full"]))
         if mode == "none":
